@@ -52,6 +52,12 @@ type Closure struct {
 	bind []Value
 }
 
+// NativeFn is a function value implemented by the engine itself (only built by intrinsics, e.g. the swap
+// function sort.Slice hands to its sorting routine); it holds no interpreter state of its own.
+type NativeFn struct {
+	f func(in *Interp, args []Value) Value
+}
+
 type MapEntry struct{ k, v Value }
 type MapObj struct {
 	id      int
